@@ -480,6 +480,65 @@ func runC01(c *Ctx) {
 		}
 	}
 
+	// ---- dense length sweeps: what SM3 sees is ZA‖M (32 bytes in front of the message) and, for ZA itself,
+	// ENTL‖ID‖a‖b‖G‖P (194 bytes around the ID), so the hash's block and padding boundaries lie at message and ID
+	// lengths that are not round numbers (23, 24, 87, ...; 53, 54, 117, ...). Every message length 0..200 and every ID
+	// length 1..200, each compared with the reference pair for the nonce the signature implies, and verified by the
+	// reference verifier and by gmsm.
+	{
+		rs := c.Rng("length-sweeps")
+		sweepKeys := []testKey{keys[0], keys[len(keys)/2]}
+		for ki, key := range sweepKeys {
+			for l := 0; l <= 200; l++ {
+				for _, which := range []string{"msg", "id"} {
+					msg, id := rs.Bytes(l), ref.DefaultUID
+					if which == "id" {
+						if l == 0 {
+							continue
+						}
+						msg, id = rs.Bytes(20), rs.Bytes(l)
+					}
+					if ki == 1 && l%3 != 0 && !c.Thorough {
+						continue
+					}
+					w := map[string]interface{}{"d": key.d.Text(16), "msg": mon.Hex(msg), "id": mon.Hex(id), "swept": which, "length": l}
+					var R, S *big.Int
+					var err error
+					var ok1 bool
+					if pi := mon.Guard(func() {
+						R, S, err = sm2.Sm2Sign(key.priv(), msg, id, io.Reader(mon.NewRNG(rs.U64())))
+						if err == nil {
+							ok1 = sm2.Sm2Verify(key.pub(), msg, id, R, S)
+						}
+					}); pi != nil || err != nil {
+						rep.Violation("C01/length-sweep/sign-fails/"+which, fmt.Sprint(pi, err), w)
+						continue
+					}
+					kp := ref.RecoverK(key.d, R, S)
+					if r3, s3, ok := ref.SignWithK(key.d, kp, key.x, key.y, id, msg); !ok || r3.Cmp(R) != 0 || s3.Cmp(S) != 0 {
+						rep.Violation("C01/Sm2Sign/not-the-standard-pair/length-sweep/"+which, fmt.Sprintf("%s length %d: the pair is not the standard's for the nonce it implies", which, l), w)
+					}
+					if !ref.Verify(key.x, key.y, id, msg, R, S) {
+						rep.Violation("C01/Sm2Sign/reference-verifier-rejects/length-sweep/"+which, fmt.Sprintf("%s length %d", which, l), w)
+					}
+					if !ok1 {
+						rep.Violation("C01/Sm2Verify/rejects-valid/length-sweep/"+which, fmt.Sprintf("%s length %d", which, l), w)
+					}
+					// a reference-made signature (independent hash) must verify under gmsm
+					kr := new(big.Int).SetBytes(rs.Bytes(31))
+					kr.Add(kr, big.NewInt(1))
+					if r4, s4, ok := ref.SignWithK(key.d, kr, key.x, key.y, id, msg); ok {
+						var okv bool
+						if pi := mon.Guard(func() { okv = sm2.Sm2Verify(key.pub(), msg, id, r4, s4) }); pi != nil || !okv {
+							rep.Violation("C01/Sm2Verify/rejects-reference-signature/length-sweep/"+which, fmt.Sprintf("%s length %d", which, l), w)
+						}
+					}
+					rep.Eval(fmt.Sprintf("length-sweep/%s=%d", which, l))
+				}
+			}
+		}
+	}
+
 	// ---- inputs that are sub-slices of one live record buffer (ID‖message, message‖ID, message‖signature): each slice has
 	// spare capacity that IS the next field. The result must be the one separate copies give (same nonce stream -> same
 	// pair), and not a byte of the buffer may change.
